@@ -123,6 +123,14 @@ impl Wrapper {
     }
 }
 
+pub fn t_map_while(s: &str) -> Vec<String> {
+    let mut o: Vec<String> = s.split(',').map_while(|p| if p.is_empty() { None } else { Some(p.to_uppercase()) }).collect();
+    o.extend(s.bytes().scan(0u32, |acc, b| { *acc += b as u32; if *acc > 300 { None } else { Some((*acc).to_string()) } }));
+    o
+}
+
+pub fn t_string_add(s: &str) -> Vec<String> { let mut t = String::from("<") + s + ">"; t += "!"; vec![t] }
+
 pub type TestFn = fn(&str) -> Vec<String>;
 pub const TESTS: &[(&str, TestFn)] = &[
     ("t_rsplit_once_char", t_rsplit_once_char), ("t_rsplit_once_str", t_rsplit_once_str), ("t_split_once_char", t_split_once_char), ("t_split_once_str", t_split_once_str),
@@ -134,5 +142,5 @@ pub const TESTS: &[(&str, TestFn)] = &[
     ("t_take_while", t_take_while), ("t_positions", t_positions), ("t_sum", t_sum), ("t_max_min", t_max_min), ("t_max_by_key", t_max_by_key), ("t_step_by", t_step_by), ("t_rev", t_rev),
     ("t_slice_starts", t_slice_starts), ("t_split_first", t_split_first), ("t_split_last", t_split_last), ("t_vec_ops", t_vec_ops), ("t_swap_remove", t_swap_remove), ("t_to_digit", t_to_digit),
     ("t_utf16", t_utf16), ("t_retain", t_retain), ("t_join", t_join), ("t_enumerate_filter", t_enumerate_filter), ("t_zip_chain", t_zip_chain), ("t_last_nth", t_last_nth), ("t_any_all", t_any_all),
-    ("t_fold", t_fold), ("t_double_ended", t_double_ended), ("t_nested_fn", t_nested_fn), ("t_sets_maps", t_sets_maps), ("t_option_helpers", t_option_helpers), ("t_uint_ops", t_uint_ops), ("t_local_closure", t_local_closure), ("t_string_ops", t_string_ops),
+    ("t_fold", t_fold), ("t_string_add", t_string_add), ("t_map_while", t_map_while), ("t_double_ended", t_double_ended), ("t_nested_fn", t_nested_fn), ("t_sets_maps", t_sets_maps), ("t_option_helpers", t_option_helpers), ("t_uint_ops", t_uint_ops), ("t_local_closure", t_local_closure), ("t_string_ops", t_string_ops),
 ];
